@@ -100,7 +100,7 @@ def base_case(cid, solver, dim, t0, t1, dtmin, dtmax, tol, rhs, y0, **kw):
     c = {"id": cid, "solver": solver, "dim": dim, "dyn": False, "cx": False,
          "t0": fp(t0), "t1": fp(t1), "dtmin": fp(dtmin), "dtmax": fp(dtmax), "tol": fp(tol),
          "rhs": rhs, "y0": y0, "fail_at": 0, "work": False, "budget": 400000, "extra_next": 2,
-         "max_items": 20000, "snaps": False, "evals": False}
+         "max_items": 20000, "snaps": False, "evals": False, "min_first": False}
     c.update(kw)
     return c
 
@@ -137,9 +137,21 @@ def generic_system(rng, dim):
            "gamma": [fp(co()) for _ in range(dim)],
            "delta": [fp(co()) for _ in range(dim)],
            "omega": [fp(rng.uniform(0.5, 3.0)) for _ in range(dim)],
-           "eps": [fp(co()) for _ in range(dim)]}
+           "eps": [fp(co()) for _ in range(dim)],
+           "eta": [fp(0.0) for _ in range(dim)], "kappa": [fp(0.0) for _ in range(dim)], "tc": [fp(0.0) for _ in range(dim)]}
     y0 = [cpair(rng.uniform(0.2, 1.0) * rng.choice([-1, 1])) for _ in range(dim)]
     return rhs, y0
+
+
+def add_switch_on(rng, rhs, t1):
+    """one component of a generic system gets a forcing eta exp(kappa (t - tc)) that switches on sharply shortly
+    before the end of the interval (it reaches at most e^3 eta there)"""
+    i = rng.randrange(len(rhs["eta"]))
+    kappa = rng.uniform(20.0, 60.0)
+    rhs["eta"][i] = fp(rng.uniform(0.5, 2.0) * rng.choice([-1, 1]))
+    rhs["kappa"][i] = fp(kappa)
+    rhs["tc"][i] = fp(t1 - rng.uniform(0.5, 3.0) / kappa)
+    return rhs
 
 
 HIGH = {"rk45", "adams5", "bdf6"}
